@@ -8,6 +8,10 @@ from concurrent.futures import ThreadPoolExecutor
 # every operation history up to the given length as its own node (no merging on the canonical state): catches behaviour that depends on
 # simulator state the canonical key (amplitudes + measured flags) cannot see
 HISTORY_RUNS_QUICK = [["bfs", "full", 2, 6, 9000000, 6], ["bfs", "full", 3, 6, 9000000, 6]]
+# the same search over a complex alphabet {h, y, rx(pi/2), rz(pi/3), cx, measure, reset}: the real alphabet {h, x, ry, cx} never produces an
+# amplitude with a vanishing real part (seed C02-3)
+COMPLEX_RUNS_QUICK = [["bfs", "fullc", 2, 6], ["bfs", "fullc", 3, 5]]
+COMPLEX_RUNS_THOROUGH = [["bfs", "fullc", 2, 8], ["bfs", "fullc", 3, 7]]
 HISTORY_RUNS_THOROUGH = [["bfs", "full", 2, 7, 9000000, 7], ["bfs", "full", 3, 6, 9000000, 6]]
 
 
